@@ -74,6 +74,7 @@ func H_C09_ExistsSound(v *verifrt.T) {
 	k := v.Choose("nadds", n+1)
 	size := v.Int64("size")
 	v.Assume(size > 0)
+	v.Assume(size <= int64(1)<<uint(v.Param("SIZEBITS", 62)))
 	cmp := &sts.Partial{Size: size}
 	var parts [][2]int64
 	for i := 0; i < k; i++ {
@@ -93,7 +94,7 @@ func H_C09_ExistsSound(v *verifrt.T) {
 	if companionPartExists(cmp, qb, qe) {
 		v.Reach("exists")
 		v.AssertKF(c09covered(parts, x), "C09.O2 a range claimed as held was received byte for byte",
-			"KF-C09-overlap", c09overlapTrigger(parts))
+			"KF-C09-exists-overlap", c09overlapTrigger(parts))
 	} else {
 		v.Reach("not-exists")
 	}
@@ -136,7 +137,7 @@ func H_C09_Retention(v *verifrt.T) {
 	}
 	v.Reach("added")
 	v.AssertKF(verifrt.Implies(was, c09covered(after, x)), "C09.O3 an acknowledged byte stays on record",
-		"KF-C09-overlap", c09overlapTrigger(parts))
+		"KF-C09-replace-overlap", c09overlapTrigger(parts))
 	// the new range itself is on record afterwards
 	v.Assert(verifrt.Implies(verifrt.And(b <= x, x < e), c09covered(after, x)), "C09.O3 the added range is on record")
 }
